@@ -19,6 +19,7 @@ import (
 	"strconv"
 	"strings"
 	"sync"
+	"sync/atomic"
 	"testing"
 	"time"
 
@@ -304,6 +305,9 @@ func (c *c09PipeConn) SetWriteDeadline(time.Time) error { return nil }
 // how long the harness waits for an event of the real code before it declares it lost
 const c09PipeWait = 1500 * time.Millisecond
 
+// number of such losses in this run
+var c09PipeLost atomic.Int32
+
 func c09PipeQuery(tag int) []byte {
 	m := new(dnsmessage.Msg)
 	m.SetQuestion(fmt.Sprintf("t%d.test.", tag), dnsmessage.TypeA)
@@ -367,6 +371,7 @@ func (w *c09PipeWorld) slotTok(s *responseSlot) int {
 func (w *c09PipeWorld) resStr(r c09PipeRes, conn int) string {
 	switch {
 	case r.err == nil && r.msg == nil:
+		c09PipeLost.Add(1)
 		return "stuck"
 	case r.err == nil:
 		tag := c09PipeTag(r.msg)
@@ -421,6 +426,7 @@ func (w *c09PipeWorld) waitEvent() c09Ev {
 	case e := <-w.h.event:
 		return e
 	case <-time.After(c09PipeWait):
+		c09PipeLost.Add(1)
 		return c09Ev{at: "stuck"}
 	}
 }
@@ -508,6 +514,12 @@ func TestVerifC09Pipe(t *testing.T) {
 	}
 	for hi := 0; hi < hist; hi++ {
 		c09PipeScenario(r.Fork(), st, stat)
+		if c09PipeLost.Load() > 12 {
+			// the real code no longer follows the step structure the harness drives (every wait below is a
+			// 1.5 s timeout): enough evidence, stop instead of timing out thousands of times
+			st.Emit("P harness", "stuck: giving up after repeated loss of track")
+			break
+		}
 	}
 	stat.Write("c09pipe")
 }
